@@ -42,9 +42,12 @@ func (l *streamLog) add(ts time.Time, sequenceNumber uint16, ecn uint8) {
 	if unwrappedSequenceNumber < l.nextSequenceNumberToReport {
 		return
 	}
-	l.log[unwrappedSequenceNumber] = &packetReport{
-		arrivalTime: ts,
-		ecn:         ecn,
+	// RFC 8888 section 3.1: for duplicates the arrival time of the first copy is reported
+	if _, ok := l.log[unwrappedSequenceNumber]; !ok {
+		l.log[unwrappedSequenceNumber] = &packetReport{
+			arrivalTime: ts,
+			ecn:         ecn,
+		}
 	}
 	if l.lastSequenceNumberReceived < unwrappedSequenceNumber {
 		l.lastSequenceNumberReceived = unwrappedSequenceNumber
